@@ -288,7 +288,12 @@ def main():
             k = "%s|%s|%d|%s" % (pid, os.path.basename(m["file"]), m["line"], m["op"])
             if k in tri and m["status"] == "survived":
                 m["triage"] = tri[k]
-        json.dump({"property": pid, "seed": seed, "candidates": len(cands), "mutants": results},
+        # accumulate over runs with different seeds: keep earlier mutants that were not drawn again
+        drawn = {(m["file"], m["line"], m["op"]) for m in results}
+        kept = [m for k, m in old.items() if k not in drawn]
+        for m in results:
+            m["seed"] = seed
+        json.dump({"property": pid, "seed": seed, "candidates": len(cands), "mutants": kept + results},
                   open(outp, "w"), indent=1)
         c = lambda s: sum(1 for m in results if m["status"] == s)
         print(pid, "candidates", len(cands), "drawn", len(results), "tests-kill", c("killed_by_tests"),
